@@ -80,7 +80,7 @@ def gen_cases(ctx):
             opts = {"keyword": 0.5}
         if r > 0.93:
             opts = dict(opts, generic=0.0)
-        opts = dict(opts, crosspkg=0.12, generic_embed=0.12, selfembed=0.06)
+        opts = dict(opts, crosspkg=0.12, generic_embed=0.12, selfembed=0.06, types_extra=newgen.EXTRA_TYPES)
         s = g.top("T", **opts)
         if r > 0.93:
             # generic struct with a constraint that is not a plain identifier (repaired by f987a47; asserted)
